@@ -180,7 +180,7 @@ func C18() *engine.Scenario {
 		ID:    "C18",
 		Level: "fault_enumeration",
 		Setup: setupC18,
-		Rule: "Operator -> SimDisk -> LoadKey -> Uploader/Agent. Each run does three things. (a) Table cell: one (key material, algorithm) cell out of {RSA, EC P-256/384/521, OKP Ed25519, oct; private and public halves} x {every signature and key-encryption algorithm name the JOSE library registers at run time, absent, none, unknown and near-miss names}; the key is built both in memory (jwk.ParseKey of the JWK object) and as a one-key JWKS file; Validate and LoadKey must accept exactly the cells the accept table {RSA+PS512, EC+ES512, OKP+EdDSA} allows. (b) Key set: a JWKS file of 0-4 keys with ids over a 3-letter alphabet (repeats allowed, some keys invalid) x requested id in alphabet + ''; LoadKey must return the key with the requested id / the only key, and fail for absent, ambiguous or invalid. Faults: the JWKS file is written through the simulated disk (lost write: absent or stale previous version, short write, torn sectors, bit flips, byte substitution, zeroed range, spliced files) or corrupted at field level (alg, kty, kid rewritten); under a fault LoadKey must not panic and must either fail or return a key that has the requested id and satisfies the accept table. (c) every 16th run generates key pairs with NewKeyPair (EdDSA, ES512; PS512 every 256th; HS512) - they must validate (HS512 must not) - and what private key i signs verifies with public j exactly when i == j. Fingerprint = (table cell | set shape x requested id | fault kind x outcome). Non-trivial = an accept cell, a multi-key set, or a fired fault.",
+		Rule:  "Operator -> SimDisk -> LoadKey -> Uploader/Agent. Each run does three things. (a) Table cell: one (key material, algorithm) cell out of {RSA, EC P-256/384/521, OKP Ed25519, oct; private and public halves} x {every signature and key-encryption algorithm name the JOSE library registers at run time, absent, none, unknown and near-miss names}; the key is built both in memory (jwk.ParseKey of the JWK object) and as a one-key JWKS file; Validate and LoadKey must accept exactly the cells the accept table {RSA+PS512, EC+ES512, OKP+EdDSA} allows. (b) Key set: a JWKS file of 0-4 keys with ids over a 3-letter alphabet (repeats allowed, some keys invalid) x requested id in alphabet + ''; LoadKey must return the key with the requested id / the only key, and fail for absent, ambiguous or invalid. Faults: the JWKS file is written through the simulated disk (lost write: absent or stale previous version, short write, torn sectors, bit flips, byte substitution, zeroed range, spliced files) or corrupted at field level (alg, kty, kid rewritten); under a fault LoadKey must not panic and must either fail or return a key that has the requested id and satisfies the accept table. (c) every 16th run generates key pairs with NewKeyPair (EdDSA, ES512; PS512 every 256th; HS512) - they must validate (HS512 must not) - and what private key i signs verifies with public j exactly when i == j. Fingerprint = (table cell | set shape x requested id | fault kind x outcome). Non-trivial = an accept cell, a multi-key set, or a fired fault.",
 		Real:  []string{"jwkutil.Validate", "jwkutil.LoadKey (os.Open of a real file, jwk.Parse, fromIdOrOnlyKey)", "jwkutil.NewKeyPair", "signature.Sign / signature.Verify", "jwx key parsing and validation"},
 		Stub:  []string{"Operator (key material from fixed fixtures; JWKS author)", "SimDisk (sector model) materialised as a real file in a per-process scratch directory", "accept table"},
 		Assume: []string{"structural validity of key material is jwx's key.Validate(); the table cells use structurally valid material", "a bit flip inside key material may legitimately yield another structurally valid key: under faults only 'fails, or has the requested id and satisfies the table' is required",
